@@ -490,6 +490,145 @@ func serverKeys(w *hx.W, uni []sr.Msg, ctx sr.Ctx) {
 	}
 }
 
+// memKeys: the last clause end to end, on the real in-memory backend (the property's reference use
+// of the semantics, message.search). No model of matching is needed: the result of a multi-key
+// SEARCH, in every order of its keys, has to be the intersection of the results the same server
+// gives for each key alone.
+func memKeys(w *hx.W) {
+	mem := kit.NewMem(kit.MemCfg{})
+	defer mem.Close()
+	words := []string{"alpha", "bravo", "gamma delta"}
+	var msgs [][]byte
+	var flags [][]imap.Flag
+	flagPool := [][]imap.Flag{nil, {imap.FlagSeen}, {imap.FlagDeleted}, {imap.FlagSeen, imap.FlagFlagged}, {imap.FlagAnswered, "kw1"}, {imap.FlagDraft, imap.FlagSeen, imap.FlagDeleted}}
+	for i := 0; i < 24; i++ {
+		body := "filler text\r\n"
+		for b, wd := range words {
+			if i&(1<<b) != 0 {
+				body += "line with " + wd + " in it\r\n"
+			}
+		}
+		body += strings.Repeat("x", []int{10, 90, 150, 400, 1200}[i%5])
+		subject := []string{"hello world", "Other Things", "misc"}[i%3]
+		from := []string{"bob@example.org", "alice@example.org"}[(i/3)%2]
+		msgs = append(msgs, kit.SimpleMessage(subject, from, body, time.Date(2020, 1, 1+i, 12, 0, 0, 0, time.UTC)))
+		flags = append(flags, flagPool[i%len(flagPool)])
+	}
+	mem.Populate("INBOX", msgs, flags)
+	raw := mem.DialRaw()
+	defer raw.Close()
+	raw.Sync()
+	raw.SendStr("a LOGIN user pass\r\nb SELECT INBOX\r\n")
+	raw.Sync()
+	var texts []string
+	for _, k := range keyAlphabet() {
+		texts = append(texts, k.text)
+	}
+	texts = append(texts, "BODY bravo", "NOT BODY alpha", "NOT BODY bravo", "OR BODY alpha BODY bravo", "OR BODY bravo BODY \"gamma delta\"", "NOT TEXT hello", "TEXT bravo", "OR TEXT alpha SUBJECT misc",
+		"NOT (BODY alpha BODY bravo)", "OR (BODY alpha UNSEEN) (BODY bravo SEEN)", "NOT FROM bob", "OR FROM alice SUBJECT hello", "NOT HEADER Subject Other",
+		"SINCE 10-Jan-2023", "BEFORE 20-Jan-2023", "ON 5-Jan-2023", "NOT SINCE 10-Jan-2023", "SENTSINCE 12-Jan-2020", "SENTBEFORE 20-Jan-2020", "NOT SENTON 15-Jan-2020", "OR SENTBEFORE 5-Jan-2020 SENTSINCE 20-Jan-2020",
+		"LARGER 300", "SMALLER 500", "NOT SMALLER 300", "UID 5:20", "NOT UID 1:3", "2:4,10:*", "NOT 5:9")
+	var cmds int64
+	search := func(keys string, uid bool) (map[uint32]bool, bool) {
+		tag := fmt.Sprintf("m%d", cmds)
+		cmds++
+		line := "SEARCH " + keys
+		if uid {
+			line = "UID " + line
+		}
+		raw.SendStr(tag + " " + line + "\r\n")
+		out, cond := raw.Sync()
+		lines, _ := kit.ParseResponses(out)
+		tg := kit.Tagged(lines)
+		if cond != "parked" || len(tg) != 1 || tg[0].Status != "OK" {
+			w.Violation("mem-search-rejected@"+strings.Fields(keys)[0], fmt.Sprintf("valid command %q answered %q (%s) by the in-memory backend", line, out, cond), nil)
+			return nil, false
+		}
+		res := map[uint32]bool{}
+		for _, ln := range strings.Split(string(out), "\r\n") {
+			if strings.HasPrefix(ln, "* SEARCH") {
+				for _, f := range strings.Fields(ln)[2:] {
+					var n uint32
+					fmt.Sscanf(f, "%d", &n)
+					res[n] = true
+				}
+			}
+		}
+		return res, true
+	}
+	show := func(m map[uint32]bool) string {
+		var l []int
+		for n := range m {
+			l = append(l, int(n))
+		}
+		sort.Ints(l)
+		return fmt.Sprint(l)
+	}
+	single := map[bool][]map[uint32]bool{false: make([]map[uint32]bool, len(texts)), true: make([]map[uint32]bool, len(texts))}
+	for _, uid := range []bool{false, true} {
+		for i, t := range texts {
+			r, ok := search(t, uid)
+			if !ok {
+				return
+			}
+			single[uid][i] = r
+		}
+	}
+	rng := w.Rand("memkeys")
+	nsets := w.Pick(150, 3000)
+	for sidx := 0; sidx < nsets; sidx++ {
+		n := 2 + rng.Intn(3)
+		idxs := rng.Perm(len(texts))[:n]
+		uid := rng.Intn(3) == 0
+		if !w.Mine(sidx) {
+			continue
+		}
+		want := map[uint32]bool{}
+		for num := range single[uid][idxs[0]] {
+			in := true
+			for _, ix := range idxs[1:] {
+				in = in && single[uid][ix][num]
+			}
+			if in {
+				want[num] = true
+			}
+		}
+		perms := permutations(n)
+		if len(perms) > 6 {
+			rng.Shuffle(len(perms), func(i, j int) { perms[i], perms[j] = perms[j], perms[i] })
+			perms = perms[:6]
+		}
+		for _, perm := range perms {
+			var parts []string
+			for _, p := range perm {
+				parts = append(parts, texts[idxs[p]])
+			}
+			keys := strings.Join(parts, " ")
+			got, ok := search(keys, uid)
+			if !ok {
+				return
+			}
+			if show(got) != show(want) {
+				var names []string
+				for _, ix := range idxs {
+					names = append(names, strings.Fields(texts[ix])[0]+"/"+strings.Fields(texts[ix] + " .")[1])
+				}
+				sort.Strings(names)
+				var each []string
+				for _, ix := range idxs {
+					each = append(each, fmt.Sprintf("%s -> %s", texts[ix], show(single[uid][ix])))
+				}
+				w.Violation("mem-search-keys-not-intersection@"+strings.Join(names, "+"),
+					fmt.Sprintf("in-memory backend, uid=%v: SEARCH %s returned %s; the same server answers each key alone with {%s}, whose intersection is %s", uid, keys, show(got), strings.Join(each, "; "), show(want)),
+					map[string]interface{}{"command": keys})
+			}
+			w.CaseStr("mem:" + keys)
+		}
+		w.Class(fmt.Sprintf("mem-search/%dkeys", n))
+	}
+	w.Metric("mem_search_commands", cmds)
+}
+
 func parse(b []byte) []kit.RespLine { l, _ := kit.ParseResponses(b); return l }
 
 func body(w *hx.W) {
@@ -497,6 +636,7 @@ func body(w *hx.W) {
 	andLaw(w, uni, ctx, "", 1)
 	andHistories(w, uni, ctx)
 	serverKeys(w, uni, ctx)
+	memKeys(w)
 	// the same law with every time (bounds and message dates) in one non-UTC zone: the calendar date
 	// of each is still unambiguous, but no longer the UTC date
 	for _, z := range []struct {
